@@ -436,7 +436,11 @@ def gen_plan(seed, tier):
             plan['ops'].append({'op': 'set', 'what': 'constraint', 'arg': {'family': 'measure_norm', 'form': 'pure', 'params': {'npts': npts}}})
             plan['max_rounds'] = rng.randint(2, 6)
         return plan
-    plan = solverplan.gen_solver_plan(seed, tier, ID, KNOBS)
+    big = sub_rng(seed, 'plan.c11.bigdim').random() < 0.1
+    # (ten or so parameters, most of them flat or tied: collapse sets with indices of 8 and more, several indices at a time, each fixed
+    # at its own value)
+    plan = solverplan.gen_solver_plan(seed, tier, ID, KNOBS if not big else dict(KNOBS, min_dim=9, max_dim=11, p_bounds=0.1,
+                                                                                  cost_models=['flat', 'flat', 'tied', 'quant']))
     plan['kind'] = 'solver'
     solver = plan['solver']; dim = plan['dim']
     if 'npop' in plan: plan['npop'] = max(plan['npop'], 6)      # every strategy needs up to 5 distinct other members
